@@ -27,6 +27,12 @@
 static lp_assignment_t* M;
 static int yidx;
 static lp_variable_t yvar;
+/* the operand is re-created (pio_new) in front of EVERY call under test, so that each call is the first one that
+ * sees it: under VERIF_STALE=1 pio_new hands out an external polynomial still laid out for the reversed order,
+ * which the call itself has to re-order (lp_polynomial_external_clean); the output must not depend on it */
+static lp_polynomial_t* gA;
+static const char* g_poly;
+#define REBUILD() do { lp_polynomial_delete(gA); gA = pio_new(g_poly); } while (0)
 
 static int parse_order(const char* s, int* perm) {
   int n = 0; const char* c = s;
@@ -39,6 +45,7 @@ static lp_polynomial_t* setup_case(int* ok) {
   int perm[PIO_NV]; int n = parse_order(vtok[1], perm);
   pio_set_order(perm, n);
   yidx = perm[n-1]; yvar = pio_x[yidx];
+  g_poly = vtok[2];
   lp_polynomial_t* A = pio_new(vtok[2]);
   int na = atoi(vtok[3]);
   *ok = 1;
@@ -133,15 +140,18 @@ static void infeasible_regions_c(const lp_feasibility_set_t* feasible, ivec_t* r
   lp_value_destruct(&last_value); lp_value_destruct(&plus_inf);
 }
 
-static void do_iso(lp_polynomial_t* A) {
+#define A gA
+static void do_iso(void) {
   size_t deg = lp_polynomial_degree(A);
   lp_value_t* roots = malloc(sizeof(lp_value_t) * (deg + 1));
   size_t n = 0;
+  REBUILD();
   lp_polynomial_roots_isolate(A, M, roots, &n);
   print_values("R", roots, n);
   for (size_t i = 0; i < n; ++i) lp_value_destruct(roots + i);
   /* again on the same (internally refined) assignment */
   n = 0;
+  REBUILD();
   lp_polynomial_roots_isolate(A, M, roots, &n);
   putchar(' '); print_values("R2", roots, n);
   for (size_t i = 0; i < n; ++i) lp_value_destruct(roots + i);
@@ -149,6 +159,7 @@ static void do_iso(lp_polynomial_t* A) {
   lp_value_t seven; lp_value_construct_int(&seven, 7);
   lp_assignment_set_value(M, yvar, &seven);
   n = 0;
+  REBUILD();
   lp_polynomial_roots_isolate(A, M, roots, &n);
   const lp_value_t* back = lp_assignment_get_value(M, yvar);
   int restored = back->type != LP_VALUE_NONE && lp_value_cmp(back, &seven) == 0;
@@ -161,9 +172,10 @@ static void do_iso(lp_polynomial_t* A) {
 
 /* the front half of lp_polynomial_roots_isolate re-done with the library's own functions, to show the model of
  * the back half (gather / sort / de-duplicate, coq/FeasSweep.v roots_isolate_assemble) its inputs */
-static void do_isof(lp_polynomial_t* A) {
+static void do_isof(void) {
   const lp_polynomial_context_t* ctx = lp_polynomial_get_context(A);
   lp_polynomial_t A_r; lp_polynomial_construct(&A_r, ctx);
+  REBUILD();
   lp_polynomial_reductum_m(&A_r, A, M);
   lp_polynomial_t** factors = 0; size_t* mult = 0; size_t nf = 0;
   lp_polynomial_factor_square_free(&A_r, &factors, &mult, &nf);
@@ -183,25 +195,29 @@ static void do_isof(lp_polynomial_t* A) {
   lp_polynomial_destruct(&A_r);
   size_t deg = lp_polynomial_degree(A), n = 0;
   lp_value_t* roots = malloc(sizeof(lp_value_t) * (deg + 1));
+  REBUILD();
   lp_polynomial_roots_isolate(A, M, roots, &n);
   print_values("R", roots, n);
   free_values(roots, n);
 }
 
-static void do_fs(lp_polynomial_t* A) {
+static void do_fs(void) {
   size_t deg = lp_polynomial_degree(A);
   lp_value_t* roots = malloc(sizeof(lp_value_t) * (deg + 1));
   size_t n = 0, np = 0;
+  REBUILD();
   lp_polynomial_roots_isolate(A, M, roots, &n);
   print_values("R", roots, n);
   lp_value_t* probes = make_probes(roots, n, &np);
   putchar(' '); print_values("P", probes, np);
   for (int sc = 0; sc < 6; ++sc) for (int neg = 0; neg < 2; ++neg) {
+    REBUILD();
     lp_feasibility_set_t* S = lp_polynomial_constraint_get_feasible_set(A, (lp_sign_condition_t) sc, neg, M);
     printf(" S %d %d", sc, neg); print_set(S); print_contains(S, probes, np);
     lp_feasibility_set_delete(S);
   }
   for (int sc = 0; sc < 6; ++sc) {
+    REBUILD();
     lp_feasibility_set_t* S = lp_polynomial_constraint_get_feasible_set(A, (lp_sign_condition_t) sc, 0, M);
     ivec_t reg = { 0, 0, 0 };
     infeasible_regions_c(S, &reg);
@@ -221,17 +237,18 @@ static void do_fs(lp_polynomial_t* A) {
   for (size_t j = 0; j < np; ++j) {
     lp_assignment_set_value(M, yvar, probes + j);
     putchar(' ');
-    for (int sc = 0; sc < 6; ++sc) putchar(lp_polynomial_constraint_evaluate(A, (lp_sign_condition_t) sc, M) ? '1' : '0');
+    for (int sc = 0; sc < 6; ++sc) { REBUILD(); putchar(lp_polynomial_constraint_evaluate(A, (lp_sign_condition_t) sc, M) ? '1' : '0'); }
     lp_assignment_set_value(M, yvar, 0);
   }
   free_values(probes, np);
   free_values(roots, n);
 }
 
-static void do_rc(lp_polynomial_t* A) {
+static void do_rc(void) {
   size_t deg = lp_polynomial_degree(A);
   lp_value_t* roots = malloc(sizeof(lp_value_t) * (deg + 1));
   size_t n = 0, np = 0;
+  REBUILD();
   lp_polynomial_roots_isolate(A, M, roots, &n);
   print_values("R", roots, n);
   lp_value_t* probes = make_probes(roots, n, &np);
@@ -240,6 +257,7 @@ static void do_rc(lp_polynomial_t* A) {
   size_t kmax = n + 1 < deg + 1 ? n + 1 : deg + 1;
   printf(" K %zu", kmax);
   for (size_t k = 0; k <= kmax; ++k) for (int sc = 0; sc < 6; ++sc) for (int neg = 0; neg < 2; ++neg) {
+    REBUILD();
     lp_feasibility_set_t* S = lp_polynomial_root_constraint_get_feasible_set(A, k, (lp_sign_condition_t) sc, neg, M);
     printf(" S %zu %d %d", k, sc, neg); print_set(S); print_contains(S, probes, np);
     lp_feasibility_set_delete(S);
@@ -254,7 +272,7 @@ static void do_rc(lp_polynomial_t* A) {
       for (int sc = 0; sc < 6; ++sc) {
         int all = (j == 2*k + 1) || k >= n;
         if (all || sc == (int)((j + k) % 6) || sc == (int)((j + k + 3) % 6))
-          putchar(lp_polynomial_root_constraint_evaluate(A, k, (lp_sign_condition_t) sc, M) ? '1' : '0');
+          { REBUILD(); putchar(lp_polynomial_root_constraint_evaluate(A, k, (lp_sign_condition_t) sc, M) ? '1' : '0'); }
         else putchar('.');
       }
       /* the evaluator must leave the assigned value in place */
@@ -267,21 +285,23 @@ static void do_rc(lp_polynomial_t* A) {
   free_values(roots, n);
 }
 
+#undef A
+
 int main(void) {
   pio_init(lp_Z);
   M = lp_assignment_new(pio_db);
   while (next_case()) {
     if (vntok < 4) { printf("UNKNOWN-OP"); end_case(); continue; }
     int ok;
-    lp_polynomial_t* A = setup_case(&ok);
+    gA = setup_case(&ok);
     if (!ok) printf("BAD-VALUE");
-    else if (lp_polynomial_is_constant(A) || lp_polynomial_top_variable(A) != yvar) printf("NOT-MAIN");
-    else if (is_op("iso")) do_iso(A);
-    else if (is_op("isof")) do_isof(A);
-    else if (is_op("fs")) do_fs(A);
-    else if (is_op("rc")) do_rc(A);
+    else if (lp_polynomial_is_constant(gA) || lp_polynomial_top_variable(gA) != yvar) printf("NOT-MAIN");
+    else if (is_op("iso")) do_iso();
+    else if (is_op("isof")) do_isof();
+    else if (is_op("fs")) do_fs();
+    else if (is_op("rc")) do_rc();
     else printf("UNKNOWN-OP");
-    lp_polynomial_delete(A);
+    lp_polynomial_delete(gA);
     for (int i = 0; i < PIO_NV; ++i) lp_assignment_set_value(M, pio_x[i], 0);
     end_case();
   }
